@@ -583,7 +583,7 @@ impl Compiler {
                         (None, None) => {}
                     }
 
-                    self.compile_try_ends_for_loop_exit();
+                    self.compile_try_ends_for_loop_exit()?;
                     self.push_op(Jump, &[]);
                     self.push_loop_jump_placeholder()?;
 
@@ -599,7 +599,7 @@ impl Compiler {
                     if let Some(result_register) = loop_result_register {
                         self.push_op(SetNull, &[result_register]);
                     }
-                    self.compile_try_ends_for_loop_exit();
+                    self.compile_try_ends_for_loop_exit()?;
                     self.push_jump_back_op(JumpBack, &[], loop_start_ip)?;
 
                     CompileNodeOutput::none()
@@ -2202,14 +2202,27 @@ impl Compiler {
 
     // `break` and `continue` jump out of any try blocks that are open in the loop's body,
     // their catch points have to be cleared first (as at the end of the try block).
-    fn compile_try_ends_for_loop_exit(&mut self) {
-        let open_try_blocks = self
+    //
+    // The same goes for list / tuple literals and interpolated strings that the jump leaves
+    // part-way: their builders are finished into a temporary register that gets discarded.
+    fn compile_try_ends_for_loop_exit(&mut self) -> Result<()> {
+        let (open_try_blocks, open_builders) = self
             .frame()
             .current_loop()
-            .map_or(0, |loop_info| loop_info.open_try_blocks);
+            .map_or((0, Vec::new()), |loop_info| {
+                (loop_info.open_try_blocks, loop_info.open_builders.clone())
+            });
         for _ in 0..open_try_blocks {
             self.push_op(Op::TryEnd, &[0]);
         }
+        if !open_builders.is_empty() {
+            let temp_register = self.push_register()?;
+            for finish_op in open_builders.into_iter().rev() {
+                self.push_op(finish_op, &[temp_register]);
+            }
+            self.pop_register()?;
+        }
+        Ok(())
     }
 
     fn compile_try_expression(
@@ -2721,6 +2734,7 @@ impl Compiler {
                             // Limit the size hint to u32::MAX, u64 size hinting can be added later if
                             // it would be useful in practice.
                             self.push_var_u32(size_hint as u32);
+                            self.frame_mut().push_builder(Op::StringFinish);
                         }
 
                         for node in nodes.iter() {
@@ -2780,6 +2794,7 @@ impl Compiler {
                         }
 
                         if let Some(result_register) = result.register {
+                            self.frame_mut().pop_builder();
                             self.push_op(Op::StringFinish, &[result_register]);
                         }
                     }
@@ -2839,6 +2854,7 @@ impl Compiler {
 
             self.push_op(SequenceStart, &[]);
             self.push_var_u32(size_hint);
+            self.frame_mut().push_builder(finish_op);
 
             match elements {
                 [] => {}
@@ -2881,6 +2897,7 @@ impl Compiler {
 
             // Now that the elements have been added to the sequence builder,
             // add the finishing op.
+            self.frame_mut().pop_builder();
             self.push_op(finish_op, &[result_register]);
         } else {
             // Compile the element nodes for side-effects
